@@ -83,7 +83,7 @@ func runC16(c *core.Ctx) *core.Violation {
 	conf.Options.TargetDB = f.TargetDB
 	conf.Options.KeyExists = []string{"none", "rewrite"}[t.Choose(2)]
 	conf.Options.ScanKeyNumber = uint32([]int{100, 1, 2, 3, 10}[t.Choose(5)])
-	conf.Options.Qps = []int{500000, 1000, 37}[t.Choose(3)]
+	conf.Options.Qps = []int{500000, 1000, 37, 3}[t.Choose(4)]
 	conf.Options.SourceAddressList = []string{srcAddr}
 	conf.Options.TargetAddressList = []string{tgtAddr}
 	conf.Options.SourcePasswordRaw = srcPassword
@@ -101,6 +101,7 @@ func runC16(c *core.Ctx) *core.Violation {
 	}
 	netMode := t.Choose(3)
 	mutate := t.Choose(3) == 2
+	slowSource := t.Choose(3) == 2
 	thresholdMode := t.Choose(4)
 
 	var viol *core.Violation
@@ -160,6 +161,11 @@ func runC16(c *core.Ctx) *core.Violation {
 		src.Before = func(cn *modelredis.ConnState, args [][]byte) {
 			name := strings.ToLower(string(args[0]))
 			if name == "scan" {
+				if slowSource && t.Choose(3) == 0 {
+					// a slow source: this SCAN takes 0.5-3 s (the rate limiter sees seconds with fewer keys than qps)
+					s.Fault("source_stall")
+					s.Sleep(time.Duration(500+t.Choose(2500)) * time.Millisecond)
+				}
 				lastScanAt = s.Now()
 			}
 			if !mutate || len(args) != 2 || (name != "dump" && name != "pttl") {
@@ -225,7 +231,7 @@ func runC16(c *core.Ctx) *core.Violation {
 			}
 		}
 		c.Sample = map[string]interface{}{"keys": len(keys), "filters": fmt.Sprintf("dbW=%v dbB=%v keyW=%v keyB=%v", f.DBWhite, f.DBBlack, f.KeyWhite, f.KeyBlack), "target_db": f.TargetDB,
-			"key_exists": conf.Options.KeyExists, "scan_key_number": conf.Options.ScanKeyNumber, "qps": conf.Options.Qps, "threshold": conf.Options.BigKeyThreshold, "key_file": keyFile, "mutator": mutate, "net_mode": netMode}
+			"key_exists": conf.Options.KeyExists, "scan_key_number": conf.Options.ScanKeyNumber, "qps": conf.Options.Qps, "threshold": conf.Options.BigKeyThreshold, "key_file": keyFile, "mutator": mutate, "slow_source": slowSource, "net_mode": netMode}
 
 		proc = s.NewProc("tool")
 		start := s.Now()
@@ -331,7 +337,7 @@ func init() {
 		PerProcess: 100,
 		Rule: "one run = CmdRump.Main() from a source model (up to 20 (60 thorough) keys of all classic types/encodings with their original DUMP payloads over up to 4 dbs, some with TTL) to a target model; " +
 			"the source answers SCAN adversarially (shuffled order, pages of 0..2xCOUNT keys, opaque non-zero cursors) and a mutator deletes or expires keys between SCAN, DUMP and PTTL; x scan.key_number {1,2,3,10,100} " +
-			"x big_key_threshold around a payload size x key_exists {none,rewrite} x target.db x db/key filters x qps {37,1000,500000} x key-file scans with any number of lines incl. absent keys x per-link latency; " +
+			"x big_key_threshold around a payload size x key_exists {none,rewrite} x target.db x db/key filters x qps {3,37,1000,500000} x slow source (SCANs that take 0.5-3 s) x key-file scans with any number of lines incl. absent keys x per-link latency; " +
 			"oracle (on the simulated clock): every surviving, passing key is on the target in the same db (or target.db) with the source value and remaining TTL, vanished keys are skipped, nothing else is copied, Main returns; " +
 			"distinct = hash of (schedule, workload); non-trivial = the source has keys",
 		Assumptions: []string{
@@ -341,6 +347,6 @@ func init() {
 		},
 		RealVsStub: "real: run.CmdRump (fetcher/writer/receiver), scanner.NormalScanner/KeyFileScanner (real key file), utils.RestoreBigkey/restoreBigRdbEntry, utils.StartQoS, filter, redigo; simulated: TCP, source (scan adversary + mutator) and target models, clock, scheduling",
 		ProbeNames: []string{"vanished_key_skipped", "big_key_route", "key_file_scan"},
-		FaultNames: []string{"scan_empty_page", "key_deleted_mid_scan", "key_expired_mid_scan", "latency", "segment_split"},
+		FaultNames: []string{"scan_empty_page", "key_deleted_mid_scan", "key_expired_mid_scan", "source_stall", "latency", "segment_split"},
 	})
 }
